@@ -417,6 +417,8 @@ def xop_apply(node, op):
     _, _, aslot, eslot, mode = op
     alg = node.get(aslot)
     e = node.get(eslot)
+    if not isinstance(e, Expr):
+        raise Skip("not-an-expression")  # a constructor evaluated to a Python number
     base = type(alg)._sim_base
     want, want_trail = _model_apply(alg, e, mode)
     start = len(alg.trail)
@@ -546,6 +548,8 @@ def xop_applyinst(node, op):
     _, _, islot, eslot = op[:4]
     inst, how = node.get(islot)
     e = node.get(eslot)
+    if not isinstance(e, Expr):
+        raise Skip("not-an-expression")
     try:
         if how == "map":
             r = ops.resolve("ufl.corealg.map_dag.map_expr_dag")(inst, e)
@@ -564,6 +568,8 @@ def xop_applyreal(node, op):
     """['applyreal', None, alg_name, expr_slot] -> digest of the result or '!Type'."""
     _, _, name, eslot = op[:4]
     e = node.get(eslot)
+    if not isinstance(e, Expr):
+        raise Skip("not-an-expression")
     f = _REAL_ALGS[name]
     try:
         r = f(e)
